@@ -251,6 +251,13 @@ func (c *SizedLRU) RemoveKey(key string) {
 
 // Remove a *list.Element from the cache.
 func (c *SizedLRU) RemoveElement(elem *list.Element) {
+	kv := elem.Value.(*entry)
+	if cur, ok := c.cache[kv.key]; !ok || cur != elem {
+		// The element was already removed from the index (e.g. by a
+		// concurrent request that failed to read the same file).
+		// Removing it again would subtract its size twice.
+		return
+	}
 	c.removeElement(elem)
 	c.gaugeCacheLogicalBytes.Set(float64(c.uncompressedSize))
 }
